@@ -554,6 +554,42 @@ Proof.
 Qed.
 
 (* ---------------------------------------------------------------------------------------------- *)
+(* G'. the field seen from the solver's cell grid; normalisation of the Gaussian *)
+
+(* the field seen from the solver's cell grid: node i sits at solver_x i * nx/(nx-1), so the offset to the location xs is the
+   offset of the solver cell to xs*(nx-1)/nx, stretched by nx/(nx-1) *)
+Lemma offset_on_solver_grid : forall nx xmx xs i, (2 <= nx)%nat ->
+  ideal_x nx xmx i - xs = (solver_x nx xmx i - xs * ((INR nx - 1) / INR nx)) * (INR nx / (INR nx - 1)).
+Proof.
+  intros nx xmx xs i Hn. destruct (x_vs_solver nx xmx i Hn) as [E _]. rewrite E.
+  pose proof (INR_ge2 nx Hn). field. lra.
+Qed.
+
+(* the default location, seen from the solver's grid, is the midpoint between its first and last cell *)
+Lemma default_loc_on_solver_grid : forall nx xmx, (2 <= nx)%nat ->
+  fst (ideal_loc xmx 0 None) * ((INR nx - 1) / INR nx) = (solver_x nx xmx 0 + solver_x nx xmx (nx - 1)) / 2.
+Proof.
+  intros nx xmx Hn. simpl fst. unfold solver_x. rewrite INR_minus1 by lia. simpl INR.
+  pose proof (INR_ge2 nx Hn). field. lra.
+Qed.
+
+(* a location given in metres is displaced towards the origin by xs/nx <= dx * (xs/xmx) on the solver's grid *)
+Lemma given_loc_displacement : forall nx xs, (1 <= nx)%nat ->
+  xs - xs * ((INR nx - 1) / INR nx) = xs / INR nx.
+Proof. intros nx xs Hn. apply le_INR in Hn. simpl in Hn. field. lra. Qed.
+
+(* Riemann sum of the Gaussian over the whole plane is not modelled; the peak relation shows the normalisation is the 1-d one:
+   the peak times sigma sqrt(2 pi) is 1 *)
+Lemma point_peak_normalisation : forall nx xmx xs ys, (0 < nx)%nat -> 0 < xmx ->
+  ideal_point nx xmx xs ys xs ys * (ideal_sigma nx xmx * sqrt (2 * PI)) = 1.
+Proof.
+  intros nx xmx xs ys Hn Hx.
+  pose proof (sigma_pos nx xmx Hn Hx) as Hs. pose proof sqrt_2pi_pos as Hp.
+  destruct (point_peak nx xmx xs ys xs ys Hn Hx) as [_ [_ E]]. rewrite (E (conj eq_refl eq_refl)).
+  field. split; lra.
+Qed.
+
+(* ---------------------------------------------------------------------------------------------- *)
 (* H. concrete instances (non-vacuity of the hypotheses used above) *)
 
 Lemma y_as_x : forall ny ymx j, ideal_y ny ymx j = ideal_x ny ymx j.
